@@ -261,7 +261,8 @@ func (w *SW) checkReopenedAt(st *store.Store[*H], d *simdisk.Disk, why string) {
 		}
 		head, herr := st.Head(ctx)
 		tail, terr := st.Tail(ctx)
-		for name, e := range map[string]*H{"head": head, "tail": tail} {
+		for i, e := range []*H{head, tail} {
+			name := []string{"head", "tail"}[i]
 			if e == nil {
 				continue
 			}
@@ -288,7 +289,7 @@ func (w *SW) checkReopenedAt(st *store.Store[*H], d *simdisk.Disk, why string) {
 			}
 		}
 		// every surviving header is retrievable
-		for h := range surv {
+		for _, h := range sortedHeights(surv) {
 			x := ch.At(h)
 			if g, err := st.Get(ctx, x.Hash()); err != nil || !simhdr.Equal(g, x) {
 				bad("committed-header-lost", map[string]string{"by": "hash"}, "header %d is in the image but Get(hash)=%v,%v", h, g, err)
